@@ -65,3 +65,5 @@ def run(ctx):
                        ('Tweak.__init__', S.TWEAK_INIT)])
     cmp_many(ctx, MODE, [('Chain.__init__', S.CHAIN_INIT), ('Chain.xorstr', S.XORSTR)])
     derives(ctx, SK, 'UBI', MODE, 'Chain')
+
+    dependencies(ctx, ['crysp/bits.py', 'crysp/mode.py', 'crysp/skein.py', 'crysp/threefish.py'], 'C12')
